@@ -129,8 +129,17 @@ func (ex *Exec) freshResult(t types.Type, how string, name string, bind map[stri
 	case "slice":
 		st := t.Underlying().(*types.Slice)
 		if strings.HasPrefix(how, "fresh:") {
+			alts := strings.Split(how[6:], "|")
+			pick := alts[len(alts)-1]
+			for _, a := range alts[:len(alts)-1] {
+				sel := Fresh(name+".len"+a, SBool)
+				if ex.decide(sel, "result-length") {
+					pick = a
+					break
+				}
+			}
 			var n int
-			fmt.Sscanf(how, "fresh:%d", &n)
+			fmt.Sscanf(pick, "%d", &n)
 			o := ex.newBytes(name, n, n)
 			for i := 0; i < n; i++ {
 				ex.havocLeaf(o, i, st.Elem(), fmt.Sprintf("%s[%d]", name, i))
